@@ -13,6 +13,7 @@ import CaddyModel.C18.HostGlue
 import CaddyModel.C18.Chain
 import CaddyModel.C18.Tpl
 import CaddyModel.C18.CfEnv
+import CaddyModel.C18.Dial
 
 namespace CaddyModel.C18
 
@@ -478,5 +479,43 @@ theorem caddyfile_parse_time_env_is_configuration_run_time_env_is_data :
     cfServe (str "{$VERIF_C18_UNSET:{http.request.header.X-In}}|{$VERIF_C18_CF:d}") none
         ⟨str "{env.VERIF_C18_SECRET}", [], [47], str "S3CR3T", []⟩ = some (str "B:{env.VERIF_C18_SECRET}|d") := by
   set_option maxRecDepth 100000 in decide
+
+/-! ### the reverse proxy's upstream dial address -/
+
+/-- **the dialled address is ONE expansion of the configured dial template.** What `fillDialInfo` hands to the
+    dialler is `caddy.ParseNetworkAddress` of a single `ReplaceAll` of the upstream's configured `dial` string;
+    request text that the expansion substituted (`{http.request.header.…}`, `{http.vars.…}`) is parsed as an
+    address — network, host, port — and never scanned for placeholders. -/
+theorem dial_is_one_expansion_of_configured_template (R : Bytes → Bytes) (dialT : Bytes) :
+    dialServeR false R dialT = C13.parseNetworkAddress (R dialT) := by
+  simp [dialServeR, dialAddress]
+
+theorem dial_scans_only_the_configured_template (R : Bytes → Bytes) (dialT : Bytes) :
+    dialServeR false R dialT = dialServeR false (onlyTemplates [dialT] R) dialT := by
+  rw [dial_is_one_expansion_of_configured_template, dial_is_one_expansion_of_configured_template,
+    onlyTemplates_mem (ts := [dialT]) (t := dialT) (by simp)]
+
+/-- the seeded change seeded/C18-placeholder-upstream-resolved-then-expanded-again (a pre-resolution step stores
+    `Dial: dialInfo.String()`, and `fillDialInfo` expands that string again): with `dial {http.request.header.X-In}`
+    and the request header `X-In: {env.VERIF_C18_SECRET}:5432` the code dials the literal host
+    `{env.VERIF_C18_SECRET}` (which does not resolve), the two-pass variant dials the host the server's
+    environment names; an escaped brace is laundered the same way. -/
+def exDialReq : HttpReq := ⟨str "{env.VERIF_C18_SECRET}:5432", str "\\{env.VERIF_C18_SECRET}:80", [47], str "10.0.0.5", []⟩
+
+theorem dial_reexpanded :
+    dialServe false (str "{http.request.header.X-In}") [] exDialReq = .ok (str "tcp") (str "{env.VERIF_C18_SECRET}") 5432 ∧
+    dialServe true (str "{http.request.header.X-In}") [] exDialReq = .ok (str "tcp") (str "10.0.0.5") 5432 ∧
+    dialServe false (str "{http.request.uri.query.q}") [] exDialReq = .ok (str "tcp") (str "\\{env.VERIF_C18_SECRET}") 80 ∧
+    dialServe true (str "{http.request.uri.query.q}") [] exDialReq = .ok (str "tcp") (str "{env.VERIF_C18_SECRET}") 80 ∧
+    dialServeR true (expandAll (dialEnv [] exDialReq)) (str "{http.request.header.X-In}") ≠
+      dialServeR true (onlyTemplates [str "{http.request.header.X-In}"] (expandAll (dialEnv [] exDialReq)))
+        (str "{http.request.header.X-In}") := by
+  set_option maxRecDepth 100000 in decide
+
+-- non-vacuity: an ordinary backend named by the request, a variable in the host part, a rejected address
+set_option maxRecDepth 100000 in
+example : dialServe false (str "{http.vars.v}.internal:443") (str "{http.request.header.X-In}")
+      ⟨str "db", [], [47], [], []⟩ = .ok (str "tcp") (str "db.internal") 443 ∧
+    dialServe false (str "{http.request.header.X-In}") [] ⟨str "x:1-3", [], [47], [], []⟩ = .err := by decide
 
 end CaddyModel.C18
